@@ -147,8 +147,9 @@ def symbolic_circuits(draw, tier, allow_mixed=True, exprs=EXPRS,
                       "mixed": kind == "mscalar"},\
                 draw(st.integers(0, len(scan)))
         elif kind == "scalar":
-            b, off = {"k": "g", "g": "scalar", "a": [draw(st.sampled_from(
-                exprs + ["I*x", "x + I*y"])), 0], "mixed": False},\
+            b, off = {"k": "g", "g": "scalar", "a": [draw(st.one_of(
+                expr, expr, st.sampled_from(
+                    ["I*x", "x + I*y", "I*u - 1"]))), 0], "mixed": False},\
                 draw(st.integers(0, len(scan)))
         elif kind == "mscalar":
             b, off = {"k": "g", "g": "scalar", "a": [draw(expr), 0],
